@@ -473,6 +473,9 @@ func execute(h *run.H, c *Case, draw func(w *hist.World, m *monitor, i int) (his
 	if m.s.Ambiguous {
 		m.feats["zero-forecast-ambiguity"] = 1
 	}
+	if len(m.s.Exceeded) > 0 {
+		m.feats["year-share-exceeded-in-total(not judged)"] = 1
+	}
 	if dlgrw.NewView(w.Primary().DumpMap()).Bal(dlgrw.DelegPool).Sign() > 0 || m.feats["delegators-rewarded"] > 0 {
 		m.feats["delegation-pool-nonzero"] = 1
 	}
@@ -844,7 +847,7 @@ func classify(f map[string]int, c *Case) (string, []string) {
 	for _, k := range []string{"end-of-schedule", "cycle-began-inside-close-window", "zero-forecast-ambiguity", "delegation-pool-nonzero", "delegators-rewarded",
 		"blocks-with-absent-signers", "rewards-with-absent-signers", "burnout-paid", "burnout-capped-by-pool", "restart-inside-cycle", "restart-at-cycle-boundary", "restart-after-schedule",
 		"withdraw-block-judged", "withdraw-block-not-judged", "ok:WITHDRAW_REWARD:amt-pos", "ok:WITHDRAW_REWARD:amt-neg", "ok:WITHDRAW_REWARD:amt-beyond-int64", "ok:WITHDRAW_REWARD:validator-record-absent", "ok:WITHDRAW_REWARD:stranger-took-rewards-of-removed-validator",
-		"negative-withdrawn-record", "twin-apphash-differs-outside-reward-records", "hazard:forecast-shorter-than-cycle", "hazard:zero-forecast", "ok:STAKE", "ok:UNSTAKE", "ok:ADD_NETWORK_DELEGATION"} {
+		"negative-withdrawn-record", "twin-apphash-differs-outside-reward-records", "hazard:forecast-shorter-than-cycle", "hazard:zero-forecast", "year-share-exceeded-in-total(not judged)", "ok:STAKE", "ok:UNSTAKE", "ok:ADD_NETWORK_DELEGATION"} {
 		if f[k] > 0 {
 			classes = append(classes, k)
 		}
